@@ -103,78 +103,86 @@ func c08HandleBlock(p *Prog, c *Check) {
 	c.Analysed(shortFn(fn))
 	fi := p.Info(fn)
 	q := fi.T(fn.Params[2])
-	n := 0
-	for _, r := range returnsOf(fn) {
-		if fi.retCompatible(r, []ResultCond{{0, "nil"}}) == no {
-			continue
-		}
-		n++
-		key := "handleBlock:ok@" + retKeyByCall(fi, r)
-		// must be `return Save(ctx, queries)`
-		b := Binds{"q": q}
-		if !ParsePat("Save(_, _, $q)").Match(fi.T(r.Results[0]), copyBinds(b)) {
-			c.Fail(rule, key, p.siteOf(r), shortFn(fn), "success return", "a possibly-nil return of handleBlock is not the result of Save on the block's query handle: "+fi.T(r.Results[0]).s)
-			continue
-		}
-		// ordered must-pass chain of successful calls on the same handle
-		type step struct{ name, pat string }
-		steps := []step{
-			{"Load", "Load(_, _, $q)"},
-			{"TMSetSyncMeta", "TMSetSyncMeta($q, ...)"},
-			{"shiftPhases", "shiftPhases(_, _, $q, $b.Height)"},
-			{"BeforeSaveHook", "BeforeSaveHook(_, _, $q)"},
-		}
-		var prev *ssa.Call
-		ok := true
-		var used []string
-		b["b"] = fi.T(fn.Params[3])
-		for _, st := range steps {
-			var call *ssa.Call
-			for _, blk := range fn.Blocks {
-				for _, in := range blk.Instrs {
-					if cl, isC := in.(*ssa.Call); isC && ParsePat(st.pat).Match(fi.T(cl), copyBinds(b)) {
-						call = cl
-					}
-				}
-			}
-			if call == nil {
-				c.Fail(rule, key+":"+st.name, p.siteOf(r), shortFn(fn), "success return", "no call matching "+st.pat+" (on the block's own query handle) in handleBlock")
-				ok = false
-				break
-			}
-			if !fi.mustPassSuccess(call, r.Block()) {
-				c.Fail(rule, key+":"+st.name, p.siteOf(call), shortFn(fn), st.name, "the success return can be reached without "+st.name+" having succeeded")
-				ok = false
-				break
-			}
-			if prev != nil && !fi.mustPassSuccess(prev, call.Block()) {
-				c.Fail(rule, key+":order:"+st.name, p.siteOf(call), shortFn(fn), st.name, st.name+" can run before the preceding step succeeded (order of the block transaction)")
-				ok = false
-				break
-			}
-			used = append(used, st.name+" == nil")
-			prev = call
-		}
-		if !ok {
-			continue
-		}
-		c.Ok(rule, key, p.siteOf(r), shortFn(fn), "success return = Save(queries)", append(used, "in order, same handle")...)
+	// the calls that have succeeded, in order, before any successful return (helpers are looked into)
+	trace := p.successTrace(fn, 0)
+	var tr []string
+	for _, st := range trace {
+		tr = append(tr, siteTag.ReplaceAllString(st.T.s, ""))
 	}
-	c.Floor(rule, n, 1)
+	key := "handleBlock:ok"
+	b := Binds{"q": q, "b": fi.T(fn.Params[3])}
+	type step struct{ name, pat string }
+	steps := []step{
+		{"Load", "Load(_, _, $q)"},
+		{"TMSetSyncMeta", "TMSetSyncMeta($q, ...)"},
+		{"shiftPhases", "shiftPhases(_, _, $q, $b.Height)"},
+		{"BeforeSaveHook", "BeforeSaveHook(_, _, $q)"},
+		{"Save", "Save(_, _, $q)"},
+	}
+	pos := 0
+	ok := true
+	var used []string
+	for _, st := range steps {
+		found := false
+		for pos < len(trace) {
+			t := trace[pos]
+			pos++
+			if ParsePat(st.pat).Match(t.T, copyBinds(b)) {
+				found = true
+				break
+			}
+		}
+		if !found {
+			c.Fail(rule, key+":"+st.name, p.Rel(fn.Pos()), shortFn(fn), "success path of handleBlock", "a successful return can be reached without "+st.name+" (on the block's own query handle) having succeeded after the preceding steps (order of the block transaction: Load, TMSetSyncMeta, shiftPhases, BeforeSaveHook, Save)", tr...)
+			ok = false
+			break
+		}
+		used = append(used, st.name+" == nil")
+	}
+	if ok {
+		// nothing that can fail runs after Save: only helper calls that contain the Save step may follow
+		saveIdx := pos - 1
+		bad := -1
+		for j := pos; j < len(trace); j++ {
+			if j-trace[j].Covers > saveIdx {
+				bad = j
+				break
+			}
+		}
+		if bad >= 0 {
+			c.Fail(rule, key+":last", p.siteOf(trace[bad].Call), shortFn(trace[bad].Fn), "success path of handleBlock", "a fallible step runs after Save on the success path (state changed after it would not be saved): "+trace[bad].T.s, tr...)
+		} else {
+			c.Ok(rule, key, p.Rel(fn.Pos()), shortFn(fn), "success return = Save(queries)", append(used, "in order, same handle")...)
+		}
+	}
+	c.Floor(rule, len(trace), 5)
 	// exactly-once: the marker write is guarded by height == stored + 1 and stores that height
-	for i, ci := range callsTo(fn, "TMSetSyncMeta") {
-		call := ci.(*ssa.Call)
-		key := fmt.Sprintf("handleBlock:TMSetSyncMeta#%d", i+1)
-		b := Binds{"q": q, "b": fi.T(fn.Params[3])}
-		okG := c.Guard(p, rule+".once", key, call, "TMSetSyncMeta(block.Height)", b,
-			"TMGetSyncMeta($q, _)#1 == nil",
-			"$b.Height == (TMGetSyncMeta($q, _)#0.CurrentBlock + 1)")
-		if okG {
-			flds := fi.structLitFields(call.Common().Args[len(call.Common().Args)-1])
-			good := flds != nil && ParsePat("$b.Height").Match(flds["CurrentBlock"], copyBinds(b))
-			c.Result(good, rule+".once", key+":value", p.siteOf(call), shortFn(fn), "TMSetSyncMetaParams.CurrentBlock", "the stored sync height is not the handled block's height", "CurrentBlock = block.Height")
+	nOnce := 0
+	for _, f := range p.CG().Reachable([]*ssa.Function{fn}, func(f *ssa.Function) bool { return !inModule(f) || isGeneratedFile(p.fileOf(f)) }) {
+		ffi := p.Info(f)
+		for i, ci := range callsTo(f, "TMSetSyncMeta") {
+			call, isCall := ci.(*ssa.Call)
+			if !isCall {
+				continue
+			}
+			nOnce++
+			key := fmt.Sprintf("%s:TMSetSyncMeta#%d", fnName(f), i+1)
+			flds := ffi.structLitFields(call.Common().Args[len(call.Common().Args)-1])
+			if flds == nil || flds["CurrentBlock"] == nil {
+				c.Fail(rule+".once", key, p.siteOf(call), shortFn(f), "TMSetSyncMeta(...)", "the stored sync position is not a literal with CurrentBlock")
+				continue
+			}
+			b := Binds{"q": ffi.T(call.Common().Args[0]), "h": flds["CurrentBlock"]}
+			okG := c.Guard(p, rule+".once", key, call, "TMSetSyncMeta(block.Height)", b,
+				"TMGetSyncMeta($q, _)#1 == nil",
+				"$h == (TMGetSyncMeta($q, _)#0.CurrentBlock + 1)")
+			if okG {
+				good := p.termMatchesLifted(f, flds["CurrentBlock"], "_.Height", 0)
+				c.Result(good, rule+".once", key+":value", p.siteOf(call), shortFn(f), "TMSetSyncMetaParams.CurrentBlock", "the stored sync height is not the handled block's height", "CurrentBlock = block.Height")
+			}
 		}
 	}
+	c.Floor(rule+".once", nOnce, 1)
 	// events: each of the three batches is applied, errors propagate (ERRPROP over the function and its closure)
 	rule = "C08-R2.err"
 	ne := 0
